@@ -75,9 +75,11 @@ class VStr(V):
 
 
 class VElem(V):
-    """Opaque object of sort Elem (identity only).  NONE_ELEM stands for Python None inside containers."""
-    def __init__(self, t):
+    """Opaque object of sort Elem (identity only).  NONE_ELEM stands for Python None inside containers.
+    `kind` optionally names its Python type for isinstance tests ('ndarray', 'int', ...)."""
+    def __init__(self, t, kind=None):
         self.t = t
+        self.kind = kind
 
     def __repr__(self):
         return 'VElem(%s)' % self.t
@@ -106,9 +108,10 @@ class VSlice(V):
 
 
 class VList(V):
-    def __init__(self, ref, nd=False):
+    def __init__(self, ref, nd=False, width=None):
         self.ref = ref
         self.nd = nd      # True: 1-D numpy array semantics for arithmetic (elementwise), otherwise a Python list
+        self.width = width  # for a block of opaque rows: number of columns (z3 Int) when known
 
     def __repr__(self):
         return 'VList(#%d)' % self.ref
